@@ -214,6 +214,10 @@ enum How {
     MergeOver,
     /// comes out of `<<: *bN` where the base entry itself is an alias `*sN`
     MergeAlias,
+    /// comes out of a merged mapping written in place (`<<: {key: value}`, or as the last
+    /// element of `<<: [*bN, {key: value}]`): no anchor is involved, the value is used where it
+    /// is written
+    MergeInline,
 }
 
 #[derive(Clone, Debug, Serialize, Deserialize, PartialEq)]
@@ -743,6 +747,7 @@ impl Bld {
     fn build_struct(&mut self, fields: Vec<F>, gpre: &str, vpre: &str, flow: bool, merge_at: u8, fl: Flags, whole: Option<usize>) -> N {
         let mut explicit: Vec<(String, N)> = vec![];
         let mut base: Vec<(String, N)> = vec![];
+        let mut inl: Vec<(String, N)> = vec![];
         let mut mm: Option<usize> = None;
         let join = |pre: &str, leaf: &str| if pre.is_empty() { leaf.to_string() } else { format!("{pre}.{leaf}") };
         for f in fields {
@@ -803,6 +808,13 @@ impl Bld {
                     t.defm = vec![d];
                     t.via = Via::Merge;
                 }
+                How::MergeInline => {
+                    let m = self.m();
+                    inl.push((yaml.to_string(), N::Sc { tok, anchor: None, mark: Some(m), cmt: false }));
+                    t.refm = vec![m];
+                    t.defm = vec![m];
+                    t.via = Via::Merge;
+                }
                 How::MergeAlias => {
                     let (name, d) = self.pool_scalar(tok);
                     let a = self.m();
@@ -825,7 +837,16 @@ impl Bld {
             let name = format!("b{}", self.pool_b.len());
             self.pool_b.push((name.clone(), N::Map { ents: base, anchor: Some(name.clone()), flow: flow || self.defs_flow }));
             let at = merge_at as usize % (explicit.len() + 1);
-            explicit.insert(at, ("<<".to_string(), N::Al { name, mark: mm, cmt: false }));
+            let al = N::Al { name, mark: mm, cmt: false };
+            if inl.is_empty() {
+                explicit.insert(at, ("<<".to_string(), al));
+            } else {
+                let m = N::Map { ents: std::mem::take(&mut inl), anchor: None, flow: true };
+                explicit.insert(at, ("<<".to_string(), N::Seq { items: vec![al, m], anchor: None, flow: true }));
+            }
+        } else if !inl.is_empty() {
+            let at = merge_at as usize % (explicit.len() + 1);
+            explicit.insert(at, ("<<".to_string(), N::Map { ents: inl, anchor: None, flow: flow || merge_at % 2 == 0 }));
         }
         N::Map { ents: explicit, anchor: None, flow }
     }
@@ -1659,13 +1680,14 @@ const KEYS: [&str; 20] = [
 
 // ---------------- byte-driven construction (libFuzzer target) -------------------------------------
 fn how_b(b: &mut engine::Bytes) -> How {
-    match b.below(14) {
+    match b.below(16) {
         0..=5 => How::Direct,
         6 => How::Anchored,
         7..=9 => How::Alias,
         10 | 11 => How::Merge,
         12 => How::MergeOver,
-        _ => How::MergeAlias,
+        13 => How::MergeAlias,
+        _ => How::MergeInline,
     }
 }
 fn sleaf_b(b: &mut engine::Bytes, c: (usize, usize)) -> SLeaf {
@@ -1734,6 +1756,7 @@ fn how_s() -> impl Strategy<Value = How> + Clone + use<> {
         2 => Just(How::Merge),
         1 => Just(How::MergeOver),
         1 => Just(How::MergeAlias),
+        2 => Just(How::MergeInline),
     ]
 }
 fn sleaf_s(c: (usize, usize), pbad: u32) -> impl Strategy<Value = SLeaf> + Clone + use<> {
@@ -2055,7 +2078,7 @@ impl Property for C18 {
         // --- enumerated: one violated leaf of a fixed document x supply x entry point x crate x style
         let base = base_doc();
         let nl = n_leaves(&base);
-        let hows = [How::Direct, How::Anchored, How::Alias, How::Merge, How::MergeOver, How::MergeAlias];
+        let hows = [How::Direct, How::Anchored, How::Alias, How::Merge, How::MergeOver, How::MergeAlias, How::MergeInline];
         let mut idx = 0u64;
         for leaf in 0..nl {
             for how in &hows {
